@@ -30,17 +30,54 @@ impl Property for C15 {
             Tier::Thorough => PropConfig { cases: 160000, max_tape: 200, shards: 16 },
         }
     }
+    fn prelude(&self, reg: &Registry, shard: u32, nshards: u32, _tier: Tier, st: &mut Stats) -> CaseResult {
+        // deterministic boundary values: a sealed FlexVec item whose offset is just below / at / above
+        // the reserved end marker of a one-byte offset type
+        let mut job = 0;
+        for name in ["FlexVec<FlatVec<u8, u8>, u8>", "FlexVec<FlatString<u8>, u8>"] {
+            let Some(idx) = reg.by_name(name) else { continue };
+            let sh = reg.shapes[idx].as_ref();
+            for k in 250usize..=254 {
+                job += 1;
+                if job % nshards != shard {
+                    continue;
+                }
+                let item = |n: usize| match sh.ty() {
+                    crate::desc::Ty::FlexVec(t, _) if matches!(**t, crate::desc::Ty::FlatString(_)) => crate::desc::Value::Str("b".repeat(n)),
+                    _ => crate::desc::Value::Vec(vec![crate::desc::Value::Scalar(3); n]),
+                };
+                let v = crate::desc::Value::Flex(vec![item(k), item(1)]);
+                enumerate(sh, &v, &[], false, st)?;
+            }
+        }
+        st.exhaustive_parts.push("u8 offset types: first item of 250..=254 elements followed by a second item, every buffer length and route".into());
+        Ok(())
+    }
     fn run_case(&self, reg: &Registry, shape: usize, tape: &[u8], st: &mut Stats) -> CaseResult {
         let sh = &reg.shapes[shape];
         let ty = sh.ty();
-        let name = ty.short();
-        let a = model::align(ty);
         let mut t = Tape::new(tape);
         let route = t.route(4);
         let use_default = sh.consts().has_default && t.chance(1, 4);
         let mut fuel = Fuel::small();
         fuel.max_len = 8;
+        if t.chance(1, 10) {
+            // lengths in the neighbourhood of u8::MAX (length / offset type limits)
+            fuel = Fuel::big();
+        }
         let v = if use_default { default_value(ty) } else { gen_value(ty, &mut t, &mut fuel) };
+        enumerate(sh.as_ref(), &v, &route, use_default, st)
+    }
+}
+
+/// Every buffer length x address offset x route for one (shape, value).
+fn enumerate(sh: &dyn crate::glue::DynShape, v: &crate::desc::Value, route: &[u8], use_default: bool, st: &mut Stats) -> CaseResult {
+    {
+        let ty = sh.ty();
+        let name = ty.short();
+        let a = model::align(ty);
+        let v = v.clone();
+        let route = route.to_vec();
         let size_ref = model::size_of(ty, &v);
         let extent = model::extent(ty, &v);
         let ms = model::min_size(ty);
